@@ -99,8 +99,24 @@ class _IntMeta(type):
         return hash(_int)
 
 
+_TWINS: dict = {}
+
+
+def _real_int_twin(cls):
+    key = (cls.__module__, cls.__qualname__)
+    twin = _TWINS.get(key)
+    if twin is None:
+        body = {k: v for k, v in cls.__dict__.items() if k not in ('__dict__', '__weakref__')}
+        twin = _TWINS[key] = type(cls.__name__, (_int,), body)
+    return twin
+
+
 class sym_int(metaclass=_IntMeta):
     def __new__(cls, *a, **k):
+        if cls is not sym_int and not type.__subclasscheck__(_int, cls):
+            # `class X(int)` executed at CALL time inside a hooked module (e.g. static.parser.split): its base is this shim, not
+            # int.  Instances are made from a twin class with the same body whose base is the real int.
+            cls = _real_int_twin(cls)
         if cls is not sym_int:
             # `int.__new__(klass, value)` written inside an exabgp module: klass is a real int subclass
             if a and _isinstance(a[0], (SInt, SBool)):
